@@ -2,3 +2,5 @@
 pub mod bits;
 pub mod entropy;
 pub mod rng;
+pub mod headers;
+pub mod hgen;
